@@ -9,6 +9,7 @@ Parameters (query/header/cookie) and bodies are covered by the endpoint leg (har
 from __future__ import annotations
 
 import json
+import re
 
 from .. import codec, gen, tlc
 from ..common import rmtree, scratch
@@ -126,6 +127,82 @@ def spellings(rep, d) -> None:
                 rep.violate(f"C10/spelling/{k}/absent-not-unset", f"{k}: absent reads back as {rr['absent'].get('py')}", schema=props[k])
 
 
+SPELLINGS = {
+    "n30": ({"type": "string", "nullable": True}, True), "n31": ({"type": ["string", "null"]}, True), "nmem": ({"oneOf": [{"type": "string"}, {"type": "null"}]}, True),
+    "e30": ({"type": "string", "enum": ["a", "b", None], "nullable": True}, True), "e31": ({"type": ["string", "null"], "enum": ["a", "b", None]}, True),
+    "emem": ({"oneOf": [{"type": "string", "enum": ["a", "b"]}, {"type": "null"}]}, True), "enull": ({"enum": ["a", "b", None]}, True),
+    "ienull": ({"type": "integer", "enum": [1, 2, None]}, True), "a31": ({"type": ["array", "null"], "items": {"type": "integer"}}, True),
+    "i30": ({"type": "integer", "nullable": True}, True), "d31": ({"type": ["string", "null"], "format": "date"}, True),
+    "plain": ({"type": "string"}, False), "eplain": ({"type": "string", "enum": ["a", "b"]}, False), "iplain": ({"type": "integer"}, False),
+}
+
+
+def shared_positions(rep) -> None:
+    """The same schema OBJECT reached more than once (component parameter used by two operations, path-item parameter under two methods,
+    a component retried in a later round, a property built twice): every use must be what the first use is - in particular as nullable."""
+    import copy
+
+    from openapi_python_client import schema as oai
+    from openapi_python_client.parser.properties import Schemas, property_from_data
+
+    def admits_none(ts: str) -> bool:
+        return "None" in ts
+
+    for literal in (False, True):
+        cf = {"literal_enums": literal}
+        for k, (sch, nullable) in SPELLINGS.items():
+            # (1) one object, built twice by the property builder
+            cfg = gen.make_config(out="/nonexistent-opcv", **cf)
+            obj = oai.Schema.model_validate(copy.deepcopy(sch))
+            ts = []
+            for n in range(3):
+                prop, _ = property_from_data(name=f"p{n}", required=True, data=obj, schemas=Schemas(), parent_name=f"Holder{n}", config=cfg)
+                ts.append("ERR" if type(prop).__name__ == "PropertyError" else prop.get_type_string().replace(f"Holder{n}P{n}", "X"))
+            rep.count(1, ("double-parse", k, literal))
+            if len(set(ts)) != 1:
+                rep.violate(f"C10/shared/built-twice/{k}", f"building a property from the same schema object {json.dumps(sch)} three times gives {ts} (literal_enums={literal})", schema=sch)
+            # (2) the sharing patterns of a real document
+            ok = {"200": {"description": "ok"}}
+            doc = gen.mkdoc(
+                {"Later": {"type": "object", "properties": {"z": {"type": "string"}}},
+                 "Retry": {"type": "object", "properties": {"u": {"oneOf": [copy.deepcopy(sch) if "oneOf" not in sch else {"type": "integer"}, {"$ref": "#/components/schemas/ZLater"}]}, "direct": copy.deepcopy(sch)}},
+                 "ZLater": {"type": "object", "properties": {"z": {"type": "string"}}}},
+                {"/one": {"get": {"operationId": "one", "parameters": [{"$ref": "#/components/parameters/Shared"}], "responses": ok}},
+                 "/two": {"get": {"operationId": "two", "parameters": [{"$ref": "#/components/parameters/Shared"}], "responses": ok}},
+                 "/three": {"post": {"operationId": "three", "parameters": [{"$ref": "#/components/parameters/Shared"}], "responses": ok}},
+                 "/both": {"parameters": [{"name": "mode", "in": "query", "schema": copy.deepcopy(sch)}],
+                           "get": {"operationId": "bothGet", "responses": ok}, "post": {"operationId": "bothPost", "responses": ok}, "put": {"operationId": "bothPut", "responses": ok}}},
+                components={"parameters": {"Shared": {"name": "mode", "in": "query", "schema": copy.deepcopy(sch)}}})
+            data, exc = gen.parse(doc, **cf)
+            if exc or type(data).__name__ == "GeneratorError":
+                rep.violate(f"C10/shared/document-rejected/{k}", f"sharing document for {k} rejected: {exc or data}", doc=doc)
+                continue
+            uses = {}
+            for coll in data.endpoint_collections_by_tag.values():
+                for ep in coll.endpoints:
+                    for prm in ep.query_parameters:
+                        if prm.name == "mode":
+                            uses[ep.name] = prm.get_type_string()
+            rep.count(1, ("shared", k, literal))
+            want = {"one", "two", "three", "bothGet", "bothPost", "bothPut"}
+            if set(uses) != want:
+                rep.violate(f"C10/shared/parameter-missing/{k}", f"{k}: the shared parameter is missing from {sorted(want - set(uses))}", doc=doc)
+            def canon(v: str) -> str:
+                v = re.sub(r"\b(One|Two|Three|BothGet|BothPost|BothPut)Mode", "XMode", v)
+                m = re.fullmatch(r"Union\[(.*)\]", v)
+                return "Union[" + ", ".join(sorted(m.group(1).split(", "))) + "]" if m else v
+            norm = {canon(v) for v in uses.values()}
+            if len(norm) > 1 or any(admits_none(v) != nullable for v in uses.values()):
+                rep.violate(f"C10/shared/uses-differ/{k}", f"{k} (nullable={nullable}): the uses of one shared parameter are typed {uses} (literal_enums={literal})", doc=doc, uses=uses)
+            retry = next((m for m in data.models if str(m.class_info.name) == "Retry"), None)
+            if retry is None:
+                rep.violate(f"C10/shared/retried-model-missing/{k}", f"{k}: the model that needs a second round is missing", doc=doc)
+            else:
+                direct = next((q for q in (retry.required_properties or []) + (retry.optional_properties or []) if q.name == "direct"), None)
+                if direct is not None and admits_none(direct.get_type_string(no_optional=True)) != nullable:
+                    rep.violate(f"C10/shared/retried-model/{k}", f"{k} (nullable={nullable}): in a model built in a later round the property is typed {direct.get_type_string()}", doc=doc)
+
+
 def allof_required(rep, d) -> None:
     """A property is a mandatory argument iff SOME allOf member (or the schema itself) requires it - wherever `required` is written."""
     S = {"type": "string"}
@@ -201,11 +278,14 @@ def run(rep) -> None:
         for t in post[0]["nonconforming"][:20]:
             rep.drifted(mode="codec-trace", obs=trace[t - 1])
         spellings(rep, d)
+        shared_positions(rep)
         allof_required(rep, d)
         rep.sample({"descriptor": descs[3]["d"], "states": ["absent", "null", "present"]})
     finally:
         rmtree(d)
     rep.rule = ("every descriptor of Codec.tla's universe (kind x required x nullable, unions) on the real classes: signature, annotation, "
-                "absent/null/present decode + encode; 14 nullable spellings under OpenAPI 3.0 and 3.1; non-trivial = distinct descriptor")
+                "absent/null/present decode + encode; 14 nullable spellings under OpenAPI 3.0 and 3.1; "
+                "14 spellings x sharing patterns (one schema object built 3 times, a component parameter used by 3 operations, a path-item parameter under 3 methods, "
+                "a model built in a later round) x both enum styles; non-trivial = distinct descriptor")
     rep.exhaustive = True
     rep.assumptions += ["a nullable enum is one whose value list contains null (JSON-Schema semantics)"]
